@@ -84,8 +84,11 @@ def run(ctx):
                 "accessor; both dimension orders and dtypes. distinct_nontrivial = distinct (scenario, operation, layout).")
     ctx.rng.shuffle(scen)
     nscen = 10 if ctx.quick else 150
-    spectra = [S.base_values(v)[0] for v in (1, 2, 3)]
-    for v in scen[:nscen]:
+    spectra0 = [S.base_values(v)[0] for v in (1, 2, 3)]
+    for iv, v in enumerate(scen[:nscen]):
+        # in every third scenario the third spectrum is a calm record (all zeros): undefined ratios (0/0) at one position must not
+        # change what happens at the others
+        spectra = spectra0 if iv % 3 else [spectra0[0], spectra0[1], np.zeros_like(spectra0[2])]
         shape, dims = v["shape"], v["dims"]
         order = ctx.rng.choice(("lead_first", "spec_first"))
         dtype = ctx.rng.choice(("float64", "float32"))
